@@ -57,7 +57,7 @@ theorem ready_unfold (h : List (Name × ClassDef)) (c : Name) (l : List Name)
         refine ⟨d, r, rfl, ?_, hn.symm⟩
         exact collect_mono (fun x _ lx hlx => spec_eq_ready h n x lx hlx) hc
 
-example : inhOf (run [(2, ⟨[1, 0], []⟩), (0, ⟨[], []⟩), (1, ⟨[0], []⟩)]) 2 = some [1, 0] := by decide
+example : inhOf (run [(2, ⟨[1, 0], [], []⟩), (0, ⟨[], [], []⟩), (1, ⟨[0], [], []⟩)]) 2 = some [1, 0] := by decide
 
 /-- all_ready_when_closed: once a class and, recursively, all its superclasses are defined
     (`Grounded`), the class is ready — after every history, in particular when the superclasses
@@ -73,11 +73,11 @@ theorem grounded_of_ready (h : List (Name × ClassDef)) (c : Name) (l : List Nam
   obtain ⟨n, hn⟩ := ready_eq_spec h c l hr
   exact grounded_of_spec hn
 
-example : Grounded (lastDef [(1, ⟨[0], []⟩), (0, ⟨[], []⟩)]) 1 :=
-  Grounded.mk 1 ⟨[0], []⟩ (by decide) (fun x hx => by
+example : Grounded (lastDef [(1, ⟨[0], [], []⟩), (0, ⟨[], [], []⟩)]) 1 :=
+  Grounded.mk 1 ⟨[0], [], []⟩ (by decide) (fun x hx => by
     have : x = 0 := by simpa using hx
     subst this
-    exact Grounded.mk 0 ⟨[], []⟩ (by decide) (fun y hy => by simp at hy))
+    exact Grounded.mk 0 ⟨[], [], []⟩ (by decide) (fun y hy => by simp at hy))
 
 /-- the precedence list has no duplicates -/
 theorem prec_nodup (h : List (Name × ClassDef)) (c : Name) (l : List Name)
@@ -105,9 +105,9 @@ theorem order_independent (h1 h2 : List (Name × ClassDef)) (hp : h1.Perm h2)
     inhOf (run h1) c = inhOf (run h2) c ∧ defOf (run h1) c = defOf (run h2) c :=
   order_independent_defs h1 h2 (lastDef_perm hp hn) c
 
-example : ([(2, (⟨[1, 0], []⟩ : ClassDef)), (0, ⟨[], []⟩), (1, ⟨[0], []⟩)] : List (Name × ClassDef)).Perm
-    [(0, ⟨[], []⟩), (1, ⟨[0], []⟩), (2, ⟨[1, 0], []⟩)] ∧
-    (([(2, (⟨[1, 0], []⟩ : ClassDef)), (0, ⟨[], []⟩), (1, ⟨[0], []⟩)] : List (Name × ClassDef)).map Prod.fst).Nodup := by
+example : ([(2, (⟨[1, 0], [], []⟩ : ClassDef)), (0, ⟨[], [], []⟩), (1, ⟨[0], [], []⟩)] : List (Name × ClassDef)).Perm
+    [(0, ⟨[], [], []⟩), (1, ⟨[0], [], []⟩), (2, ⟨[1, 0], [], []⟩)] ∧
+    (([(2, (⟨[1, 0], [], []⟩ : ClassDef)), (0, ⟨[], [], []⟩), (1, ⟨[0], [], []⟩)] : List (Name × ClassDef)).map Prod.fst).Nodup := by
   decide
 
 /-- … also with a redefinition of one class after them: every permutation of the original forms
@@ -134,9 +134,10 @@ theorem order_independent_observations (h1 h2 : List (Name × ClassDef))
   refine ⟨hp, fun k => by simp [typep, hp], fun ms => by simp [applicable, hp], fun args => ?_⟩
   unfold makeInstance
   rw [hp]
+  have hdflt : defaultsOf (run h1) c = defaultsOf (run h2) c := by simp [defaultsOf, hdf c]
   cases precOf (run h2) c with
   | none => rfl
-  | some p => simp only [slotDefsOf_congr hdf p]
+  | some p => simp only [slotDefsOf_congr hdf p, hdflt]
 
 /-! ## redefinition -/
 
@@ -166,11 +167,11 @@ theorem redefine_frame (h : List (Name × ClassDef)) (a : Name) (d' : ClassDef) 
   rw [lastDef_append]
   exact spec_update hn hal hca
 
-example : inhOf (run ([(0, ⟨[], []⟩), (1, ⟨[0], []⟩), (2, ⟨[1], []⟩), (3, ⟨[], []⟩)] ++ [(0, ⟨[3], []⟩)])) 2
+example : inhOf (run ([(0, ⟨[], [], []⟩), (1, ⟨[0], [], []⟩), (2, ⟨[1], [], []⟩), (3, ⟨[], [], []⟩)] ++ [(0, ⟨[3], [], []⟩)])) 2
     = some [1, 0, 3] := by decide
 
 -- hypotheses of redefine_frame: class 3 does not inherit from the redefined class 0
-example : inhOf (run [(0, ⟨[], []⟩), (1, ⟨[0], []⟩), (3, ⟨[], []⟩)]) 3 = some [] ∧ (3 : Name) ≠ 0 ∧
+example : inhOf (run [(0, ⟨[], [], []⟩), (1, ⟨[0], [], []⟩), (3, ⟨[], [], []⟩)]) 3 = some [] ∧ (3 : Name) ≠ 0 ∧
     (0 : Name) ∉ ([] : List Name) := by decide
 
 /-! ## typep, class-of and method applicability use the same list -/
@@ -207,7 +208,7 @@ theorem applicable_spec (s : State) (c : Name) (ms p : List Name) (hp : precOf s
   intro k
   simp [List.mem_filter]
 
-example : precOf (run [(0, ⟨[], []⟩), (1, ⟨[0], []⟩)]) 1 = some [1, 0] := by decide
+example : precOf (run [(0, ⟨[], [], []⟩), (1, ⟨[0], [], []⟩)]) 1 = some [1, 0] := by decide
 
 /-! ## instance initialisation -/
 
@@ -257,17 +258,40 @@ example : ([(2, 7), (0, 8)] : List (Name × Val)).find?
 example : ∀ a ∈ ([(1, 7)] : List (Name × Val)),
     a.1 ∉ initargsFor [⟨0, [0], some 2⟩, ⟨1, [0, 1], none⟩] 0 := by decide
 
-/-- make-instance of a ready class whose supplied initargs are all declared is that instance -/
+/-- make-instance of a ready class whose supplied initargs are all declared is that instance; the
+    class's default initargs count as initargs supplied after the explicit ones -/
 theorem makeInstance_spec (s : State) (c : Name) (p : List Name) (args : List (Name × Val))
     (hp : precOf s c = some p)
     (hv : args.all (fun a => validArg (slotDefsOf s p) a.1) = true) :
     makeInstance s c args =
-      .ok ((slotNames (slotDefsOf s p)).map (fun x => (x, valueSpec (slotDefsOf s p) args x))) := by
+      .ok ((slotNames (slotDefsOf s p)).map
+        (fun x => (x, valueSpec (slotDefsOf s p) (args ++ defaultsOf s c) x))) := by
   simp only [makeInstance, hp, hv, if_true, slot_init_spec]
 
-example : precOf (run [(1, ⟨[0], [⟨1, [1], none⟩]⟩), (0, ⟨[], [⟨0, [0], some 5⟩]⟩)]) 1 = some [1, 0] ∧
+/-- default_initargs_spec: with default initargs a slot holds the value of the leftmost supplied
+    initarg it declares, otherwise the value of the class's first default initarg it declares,
+    otherwise its most specific initform, otherwise it is unbound — an explicit initarg always
+    beats a default, a default always beats an initform. -/
+theorem default_initargs_spec (sds : List SlotDef) (args dflt : List (Name × Val)) (x : Name) :
+    valueSpec sds (args ++ dflt) x =
+      match args.find? (fun a => (initargsFor sds x).contains a.1) with
+      | some a => some a.2
+      | none =>
+        match dflt.find? (fun a => (initargsFor sds x).contains a.1) with
+        | some a => some a.2
+        | none => initformFor sds x := by
+  unfold valueSpec
+  rw [List.find?_append]
+  cases args.find? (fun a => (initargsFor sds x).contains a.1) with
+  | some a => rfl
+  | none => rfl
+
+example : build [⟨0, [0], some 2⟩, ⟨1, [1], some 3⟩, ⟨2, [2], some 4⟩] ([(0, 7)] ++ [(0, 8), (1, 9)])
+    = [(0, some 7), (1, some 9), (2, some 4)] := by decide
+
+example : precOf (run [(1, ⟨[0], [⟨1, [1], none⟩], []⟩), (0, ⟨[], [⟨0, [0], some 5⟩], []⟩)]) 1 = some [1, 0] ∧
     ([(0, 9)] : List (Name × Val)).all (fun a => validArg (slotDefsOf
-      (run [(1, ⟨[0], [⟨1, [1], none⟩]⟩), (0, ⟨[], [⟨0, [0], some 5⟩]⟩)]) [1, 0]) a.1) = true := by
+      (run [(1, ⟨[0], [⟨1, [1], none⟩], []⟩), (0, ⟨[], [⟨0, [0], some 5⟩], []⟩)]) [1, 0]) a.1) = true := by
   decide
 
 /-- a class that is not ready cannot be instantiated -/
@@ -384,8 +408,8 @@ theorem existing_instance_keeps_class (h0 h : List (Name × ClassDef)) (o : Obj)
   rw [hs.1, e1]
   simp only [objPrec, objInh_at_supersession hg hdef d]
 
-example : (match makeObj (runW [(0, ⟨[], []⟩), (1, ⟨[0], []⟩)]) 1 [] with
-    | .ok o => objPrec (runW ([(0, ⟨[], []⟩), (1, ⟨[0], []⟩)] ++ [(3, ⟨[], []⟩), (1, ⟨[3], []⟩)])) o
+example : (match makeObj (runW [(0, ⟨[], [], []⟩), (1, ⟨[0], [], []⟩)]) 1 [] with
+    | .ok o => objPrec (runW ([(0, ⟨[], [], []⟩), (1, ⟨[0], [], []⟩)] ++ [(3, ⟨[], [], []⟩), (1, ⟨[3], [], []⟩)])) o
     | .error _ => none) = some [1, 0] := by decide
 
 /-! ## two facts that tie the model's shape to the code's -/
